@@ -241,14 +241,42 @@ def r5_bool(prog, ctx):
                         lowered.add(d["name"])
                 if pu is not None and pu.k == "BinaryOperator" and pu.j.get("op") == "=":
                     lowered.add(render(pu.children[0]))
+        # lower-cased character by character: `copy[i] = tolower(text[i])`
+        for lhs, rhs, st0, kind in query.stores(f):
+            l0 = lhs.strip()
+            if l0.k == "ArraySubscriptExpr" and rhs is not None and any(x.k == "CallExpr" and x.j.get("callee") == "tolower" for x in rhs.walk()):
+                lowered.add(render(l0.children[0]))
         # the compared text must be a complete copy: not a fixed-size array that cuts the stored text
         from sa import buf as _buf
+        from sa import loops as _loops
         arrays, sites = _buf.analyse_fixed_arrays(prog, False)
         for st in sites:
-            if st.fn is f and st.arr.name in compared and st.verdict in ("truncation", "overflow"):
+            if st.fn is not f or st.arr.name not in compared:
+                continue
+            if st.verdict in ("truncation", "overflow"):
                 ctx.fail("R5", "%s compares the whole text" % fname, st.node.where,
                          "the text is compared after being copied into %s[%d]: %s - equality on the cut copy is a prefix match "
                          "('falsehood' reads as 'false')" % (st.arr.name, st.arr.size, st.why), key="bool-truncated:%s" % fname)
+            elif st.copier == "element-store":
+                # a copy loop that stops when the array is full cuts longer text, unless longer text was turned away before
+                lp = next((a for a in st.node.ancestors() if a.k in ("ForStmt", "WhileStmt", "DoStmt")), None)
+                if lp is None:
+                    continue
+                sh = _loops.index_shape(lp)
+                if not (sh.ok and getattr(sh, "extra", None)):
+                    continue        # the loop runs to its own bound: not a copy that stops at the end of the text
+                hb = f.cfg.loop_header(lp)
+                guarded = False
+                for (b, i, s2) in f.cfg.edges():
+                    lit = f.cfg.edge_lit(b, i)
+                    if lit is not None and lit.kind == "lt" and "strlen(" in lit.atom and f.cfg.dominates(s2, hb):
+                        if any(n.const_value() is not None and 0 < n.const_value() <= st.arr.size for n in lit.node.walk() if n.is_expr()):
+                            guarded = True
+                if not guarded:
+                    ctx.fail("R5", "%s compares the whole text" % fname, st.node.where,
+                             "the text is compared after being copied into %s[%d] by a loop that stops when the array is full (%s %s %s): longer text is "
+                             "cut and equality on the cut copy is a prefix match ('falsehood' reads as 'false')" % (
+                                 st.arr.name, st.arr.size, sh.var, sh.cmp, sh.bound), key="bool-truncated:%s" % fname)
         not_lowered = [x for x in compared if x not in lowered]
         if compared and not not_lowered:
             ctx.ok("R5", "%s is case-insensitive" % fname, f.where, "compared text %s is lower-cased first" % sorted(compared))
